@@ -61,8 +61,9 @@ Dirs == {"cwd", "inc"} \cup OptDirs
 IsS(d) == d \in {"S1", "S2"}
 Forms == {"quote", "angle"}
 \* spellings of the path of one header (part 2); "cmdline" = named on the command line (top-level parse),
-\* "symlink" = through a symbolic link to its directory
-Spellings == {"plain", "dot", "dotdot", "dslash", "symlink", "abs", "viaI", "cmdline"}
+\* "symlink" = through a symbolic link to its directory, "viaI" = found through a -I directory that is itself
+\* spelled with a symbolic link, ".." and repeated slashes ("//" inside the #include text is undefined in C)
+Spellings == {"plain", "dot", "dotdot", "symlink", "abs", "viaI", "cmdline"}
 Guards == {"pragma", "guard", "none"}
 
 VARIABLES
